@@ -441,6 +441,10 @@ func init() {
 	explain["C04"] += " merge-result (shared with C17): an open that finds leftovers of an interrupted commit (parent and child both listed) must still fold them entry by entry; adopting the child wholesale drops other clients' acknowledged rows."
 }
 
+type mergeRec struct{ recorded, anonymous bool }
+
+func (m mergeRec) Key() string { return fmt.Sprintf("%v/%v", m.recorded, m.anonymous) }
+
 func c17MergeResult(c *Ctx) {
 	const rule = "C17.merge-result"
 	merge := mustFunc(c, "kv/internal/crdt", "*Tree", "Merge")
@@ -501,6 +505,48 @@ func c17MergeResult(c *Ctx) {
 	}
 	if n == 0 {
 		c.R.Bad(rule, name+": tree replaced by the join", c.P.Pos(merge.Pos()), "Merge never installs a merged tree")
+	}
+	// every successful Merge records the other version as a parent (when it has a name)
+	srcF := mustField(c, "kv/internal/crdt", "Tree", "Source")
+	msF := mustField(c, "kv/internal/crdt", "Tree", "MergeSources")
+	if srcF != nil && msF != nil {
+		type recState struct{ recorded, anonymous bool }
+		_ = recState{}
+		h := an.THooks{}
+		h.Instr = func(in ssa.Instruction, st an.TState) an.TState {
+			s := st.(mergeRec)
+			if stx, ok := in.(*ssa.Store); ok {
+				if fa, ok := stx.Addr.(*ssa.FieldAddr); ok && an.FieldVar(fa.X.Type(), fa.Field) == msF && an.ExprRoot(fa.X) == ssa.Value(recv) {
+					// the stored slice must hold *other.Source
+					if an.DependsOn(stx.Val, func(v ssa.Value) bool {
+						return an.FieldOfLoad(v) == srcF && an.ExprRoot(v) == ssa.Value(other)
+					}) {
+						s.recorded = true
+					}
+				}
+			}
+			return s
+		}
+		h.Branch = func(iff *ssa.If, side bool, st an.TState) an.TState {
+			s := st.(mergeRec)
+			if v, isNE, isNil := nilTestedValue(iff); isNil && an.FieldOfLoad(v) == srcF && an.ExprRoot(v) == ssa.Value(other) {
+				if side != isNE { // the nil side
+					s.anonymous = true
+				}
+			}
+			return s
+		}
+		exits := an.WalkTypestate(merge, mergeRec{}, h, sc)
+		good := len(exits) > 0
+		why := ""
+		for _, ex := range exits {
+			s := ex.St.(mergeRec)
+			if ex.ErrNil != 0 && !s.recorded && !s.anonymous {
+				good = false
+				why = "Merge can return success at " + c.P.Pos(ex.Ret.Pos()) + " without appending the other version's name to MergeSources: the opener still retires that version to merged/, but no version names it as a parent, so history walks and vacuum never find it again"
+			}
+		}
+		c.R.Cond(good, rule, name+": a merged version is recorded as a parent", c.P.Pos(merge.Pos()), "every successful return follows the append of *other.Source to MergeSources (or other has no name)", why)
 	}
 	// mergeTrees
 	mname := core.FuncName(mt)
